@@ -8,6 +8,8 @@ FIX = [  # (substring of commit subject, property, key at the time, what failed)
  ('Pointerify stops', 'C03', 'crash:ptrify.pointerify', 'cyclic interface-held default value made Pointerify recurse forever'),
  ('deep copy terminates on a slice', 'C03', 'crash-stack-overflow:slice-reaching-itself-through-interface-values', 's := make([]any,1); s[0]=s in a default or source value overflowed the stack in deepCopySlice'),
  ('deep copy terminates on a typed slice', 'C03', 'crash-stack-overflow:slice-reaching-itself-through-struct-values', 'type T struct{ID int; Vals []T}; v.Vals[0].Vals = v.Vals (a typed slice reaching itself through its own by-value element) in a default or source value overflowed the stack in deepCopySlice'),
+ ('deep copy keeps one copy of a node referenced through plain and defined pointer types', 'C03', 'split:ptr:deepcopy:plain-and-defined-pointer-to-one-node', 'type Ref *Node; n := &Node{}; Cfg{A: n /* *Node */, B: n /* Ref */, C: n /* *Node */}: the result had A != C although identical in the input (second copy made for the Ref-typed reference, registerPair then overwrote the *Node memo entry)'),
+ ('env source panicked on a set variable for a user-declared pointer', 'C16', 'panic:types:env+ptr-to-collection-leaves:transform.populateStruct', 'Cfg{Tags *[]string} (or a pointer to a map) with TAGS=a,b through env.Source: reflect.Set: value of type []string is not assignable to type *[]string in populateStruct (top-level field); an error instead of the value one struct level down'),
  ('an array in an interface field', 'C03', 'split:any-set-by-two-layers', 'array in an interface field set by two layers was deep-copied twice: Any[0] != Kids[0] although identical in the source value'),
  ('API calls racing', 'C08', 'crash:Dials.submitEventBlocking', 'RegisterCallback/unregister after or during monitor shutdown panicked with send on closed channel'),
  ('unregistering a callback', 'C08', 'crash:callbackMgr.runCBs', 'second call of an UnregisterCBFunc crashed the process (makeslice: cap out of range)'),
